@@ -226,6 +226,20 @@ fn wrong_type_send(trace: &Arc<Trace>, actor: &ActorRef<PMsg>) {
     if res != 0 {
         trace.online_violation("wrong-type", format!("send_message::<u64> to a PMsg actor returned code {res} instead of InvalidActorType"));
     }
+    // the same through a typed reference of the wrong type built from the cell: send_message, cast and call
+    let wrong: ActorRef<u64> = actor.get_cell().into();
+    for (api, r) in [("ActorRef::<u64>::send_message", wrong.send_message(8u64)), ("ActorRef::<u64>::cast", wrong.cast(9u64))] {
+        if !matches!(r, Err(MessagingErr::InvalidActorType)) {
+            trace.online_violation("wrong-type", format!("{api} to a PMsg actor returned {} instead of InvalidActorType", if r.is_ok() { "Ok" } else { "another error" }));
+        }
+    }
+    let mut call = crate::th::Manual::new(async move { wrong.call(|_port: ractor::RpcReplyPort<u64>| 10u64, None).await });
+    call.poll();
+    match &call.done {
+        Some(Err(MessagingErr::InvalidActorType)) => {}
+        Some(Ok(_)) | Some(Err(_)) => trace.online_violation("wrong-type", "ActorRef::<u64>::call to a PMsg actor completed with something other than InvalidActorType".into()),
+        None => trace.online_violation("wrong-type", "ActorRef::<u64>::call to a PMsg actor was accepted (the call is pending) instead of being rejected with InvalidActorType".into()),
+    }
 }
 
 fn finish(seed: u64, trace: &Arc<Trace>, exit_ts: u64, desc: Vec<String>, rep: &mut Report, extra: Vec<(String, String)>, strict_drop: bool) {
